@@ -49,4 +49,11 @@ MUTANTS = [
  ('c03-crc-table', 'C03', 'pymodbus/utilities.py', "        result.append(crc)\n    return result", "        result.append(crc)\n    result[0xA7] ^= 0x0100\n    return result"),
  ('c03-tcp-uid-lost', 'C03', 'pymodbus/framer/socket_framer.py', "        result.unit_id = self._header['uid']", "        result.unit_id = self._header['uid'] & 0x7f"),
  ('c03-binary-crc-over-raw', 'C03', 'pymodbus/framer/binary_framer.py', "        if end != -1:\n            self._header['len'] = end\n            self._header['uid'] = struct.unpack('>B', self._buffer[1:2])[0]", "        if end != -1:\n            self._header['len'] = end\n            self._header['uid'] = struct.unpack('>B', self._buffer[2:3])[0]"),
+ # ---- C06
+ ('c06-ascii-advance', 'C06', 'pymodbus/framer/ascii_framer.py', "self._buffer = self._buffer[self._header['len'] + 2:]", "self._buffer = self._buffer[self._header['len'] + 3:]"),
+ ('c06-ascii-ready', 'C03', 'pymodbus/framer/ascii_framer.py', "        return len(self._buffer) > 1", "        return len(self._buffer) > 12"),
+ ('c06-tcp-single-pass', 'C06', 'pymodbus/framer/socket_framer.py', "                    if self._header['len'] < 2:\n                        self._process(callback, error=True)\n                break", "                    if self._header['len'] < 2:\n                        self._process(callback, error=True)\n                break\n            break"),
+ ('c06-ascii-add-replaces', 'C06', 'pymodbus/framer/ascii_framer.py', "        self._buffer += message", "        self._buffer = (self._buffer if len(self._buffer) < 40 else b'') + message"),
+ ('c06-ascii-reset-on-incomplete', 'C06', 'pymodbus/framer/ascii_framer.py', "            else:\n                break\n\n    def buildPacket", "            else:\n                if len(self._buffer) > 30: self.resetFrame()\n                break\n\n    def buildPacket"),
+ ('c06-tcp-advance-extra', 'C06', 'pymodbus/framer/socket_framer.py', "        length = self._hsize + self._header['len'] - 1\n        self._buffer = self._buffer[length:]", "        length = self._hsize + self._header['len'] - 1\n        self._buffer = self._buffer[length + (1 if length > 20 else 0):]"),
 ]
